@@ -1052,8 +1052,8 @@ def run(ctx):
         "Z3 (LIA/LRA) and the box -6..6 as supporting oracles where no certificate exists; kernel.theory.check_proof for proof terms",
         "exact integer division in the model in place of Python's float division (agree below 2^53); CPython hash(-1)=hash(-2) as the only bucket collision"]
     ctx.assumptions += [
-        "omega_contr_sound is about the model of solve_matrix with fix C16-1; the SAT side (omega_sat_sound) is not proved: "
-        "witnesses of the real code are judged per run by the verified checkWitness",
+        "omega_contr_sound / omega_sat_sound are about the model of solve_matrix with fix C16-1, for matrices whose rows have one width; "
+        "the model is tied to the code by translation of the two combine functions and by differential runs",
         "the simplex algorithm is not modelled; its answers are judged per run by verified certificate checkers, Z3 and brute force",
         "exceptions / NOCONCL / 'gave up' are no answers and are only counted; termination is not part of C16"]
     from prover import omega
@@ -1146,14 +1146,15 @@ MANIFEST = {
             "(an accepted integer / rational assignment satisfies every row), checkFarkas_sound (accepted non-negative multipliers prove "
             "that no rational solution exists), checkDeriv_sound (an accepted Omega derivation - assumptions, real-shadow combination as "
             "translated from omega.py, gcd division with the constant rounded down, sum of two rows - proves that no integer solution "
-            "exists), dark_shadow_sound (the dark-shadow lemma for the combine_dark_factoid translated from omega.py: a satisfied dark "
-            "factoid guarantees an integer value for the eliminated variable); (b) omega_contr_sound / omega_contr_no_solution about an executable model of solve_matrix/solve (all modes, redundant-"
-            "variable elimination, exact/dark elimination, one-variable analysis, back-substitution), for every matrix of rows of one width "
-            "and every fuel: a Contr answer carries a derivation the checker accepts, so the system has no integer solution. The model is "
-            "tied to prover/omega.py by regenerating combine_real_factoid/combine_dark_factoid from the source on every run and by "
-            "differential runs (verdict, witness dict, derivation tree) on generated systems. The SAT side of the Omega model "
-            "(dark-shadow lemma + back-substitution) is NOT proved: every SAT witness of the real code is judged at run time by the "
-            "verified checkWitness and an independent evaluation. The simplex algorithm (pivoting, branch and bound, strict variant) is not "
+            "exists), dark_shadow_sound (the dark-shadow lemma for the combine_dark_factoid translated from omega.py); (b) about an "
+            "executable model of solve_matrix/solve (all four modes, redundant-variable elimination, exact/dark elimination with gcd "
+            "tightening, one-variable analysis, back-substitution), for every matrix of rows of one width and every fuel: "
+            "omega_contr_sound / omega_contr_no_solution (a Contr answer carries a derivation the checker accepts, so there is no integer "
+            "solution; contradictions found in dark mode are never returned) and omega_sat_sound (a Satisfiable answer satisfies every "
+            "input row). The model is tied to prover/omega.py by regenerating combine_real_factoid/combine_dark_factoid from the source "
+            "on every run and by "
+            "differential runs (verdict, witness dict, derivation tree) on generated systems; besides, every answer of the real code is "
+            "judged at run time: SAT witnesses by the verified checkWitness and an independent evaluation, contradictions by the verified checkDeriv, an independent replay, brute force and Z3. The simplex algorithm (pivoting, branch and bound, strict variant) is not "
             "modelled: its witnesses go through checkWitness(Q), its 'unsatisfiable' explanations are turned into Farkas multipliers and "
             "go through checkFarkas, branch-and-bound / strict verdicts are compared with Z3 and brute force. OmegaHOL "
             "and SimplexHOLWrapper proof terms are checked by theory.check_proof (conclusion false, hypotheses among the given constraints).",
